@@ -166,6 +166,22 @@ def _smain(b):
     return smain
 
 
+def _nglue(b):
+    def nglue(t):
+        CALLS["nglue"] += 1
+        tag, x = t
+        return [tag, T("mid").options(check_valid="shallow")(x + 1000 * b)]
+    return nglue
+
+
+def _nouter(b):
+    def nouter(t):
+        CALLS["nouter"] += 1
+        # shallow root -> fully checked glue -> shallow call -> leaf: the shallow hit sits beneath a NON-shallow parent
+        return [T("nglue")(t), b]
+    return nouter
+
+
 def _xleaf(b):
     def xleaf(x):
         CALLS["xleaf"] += 1
@@ -180,7 +196,7 @@ def _xtop(b):
     return xtop
 
 
-BODIES = {"fmain_n": _fmain_n, "xleaf": _xleaf, "xtop": _xtop, "smain": _smain, "sh": _sh, "stop": _stop, "fmain_kw": _fmain_kw, "summ_in": _summ_in, "summ": _summ, "fmain": _fmain, "vleaf": _vleaf, "vtop": _vtop, "leaf": _leaf, "mid": _mid, "top": _top, "fanout": _fanout, "idt": _idt, "boom": _boom, "rec": _rec, "guard": _guard,
+BODIES = {"nglue": _nglue, "nouter": _nouter, "fmain_n": _fmain_n, "xleaf": _xleaf, "xtop": _xtop, "smain": _smain, "sh": _sh, "stop": _stop, "fmain_kw": _fmain_kw, "summ_in": _summ_in, "summ": _summ, "fmain": _fmain, "vleaf": _vleaf, "vtop": _vtop, "leaf": _leaf, "mid": _mid, "top": _top, "fanout": _fanout, "idt": _idt, "boom": _boom, "rec": _rec, "guard": _guard,
           "big": _big, "usebig": _usebig}
 
 
